@@ -18,7 +18,7 @@ import (
 )
 
 const (
-	allocLimit = 32 << 20
+	allocLimit = 16 << 20
 	timeLimit  = 5 * time.Second
 )
 
@@ -42,16 +42,44 @@ func mutate(msg []byte, i int) ([]byte, string) {
 		return out, fmt.Sprintf("flip:%d.%d", i/8, i%8)
 	}
 	i -= 8 * n
-	vals := []byte{0x00, 0x7f, 0x80, 0xff}
-	if i < 4*n {
+	vals := []byte{0x00, 0x7f, 0x80, 0xff, 0xc1, 0xc4}
+	if i < len(vals)*n {
 		out := append([]byte{}, msg...)
-		out[i/4] = vals[i%4]
-		return out, fmt.Sprintf("set:%d=%02x", i/4, vals[i%4])
+		out[i/len(vals)] = vals[i%len(vals)]
+		return out, fmt.Sprintf("set:%d=%02x", i/len(vals), vals[i%len(vals)])
+	}
+	i -= len(vals) * n
+	// adversarial two-octet fields (lengths and counts) and runs (fragmented lengths, saturated fields)
+	pairs := [][2]byte{{0xff, 0xff}, {0x7f, 0xff}, {0x80, 0x00}, {0xbf, 0xff}, {0xc4, 0xc4}}
+	if i < len(pairs)*n {
+		out := append([]byte{}, msg...)
+		o, pv := i/len(pairs), pairs[i%len(pairs)]
+		out[o] = pv[0]
+		if o+1 < n {
+			out[o+1] = pv[1]
+		}
+		return out, fmt.Sprintf("set2:%d=%02x%02x", o, pv[0], pv[1])
+	}
+	i -= len(pairs) * n
+	runs := []struct {
+		v byte
+		k int
+	}{{0xc4, 8}, {0xc4, 40}, {0xff, 8}, {0x00, 8}}
+	if i < len(runs)*n {
+		o, rv := i/len(runs), runs[i%len(runs)]
+		out := append([]byte{}, msg[:o]...)
+		for k := 0; k < rv.k; k++ {
+			out = append(out, rv.v)
+		}
+		if o+rv.k < n {
+			out = append(out, msg[o+rv.k:]...)
+		}
+		return out, fmt.Sprintf("run:%d=%02xx%d", o, rv.v, rv.k)
 	}
 	return nil, ""
 }
 
-func nMutations(n int) int { return n + 8*n + 4*n }
+func nMutations(n int) int { return n + 8*n + 6*n + 5*n + 4*n }
 
 // multiMutate applies a seeded double fault / splice.
 func multiMutate(msg []byte, r *kernel.Rand, corpus [][]byte) ([]byte, string) {
@@ -153,6 +181,19 @@ func rigCorpus() {
 	}
 	add(func() ngapType.NGAPPDU { return ngapTestpacket.BuildNGSetupRequest([]byte{0x02, 0xf8, 0x39}) })
 	add(func() ngapType.NGAPPDU { return ngapTestpacket.BuildNGReset(nil) })
+	// long lists give count fields (incl. the semi-constrained 1..65536 one) room for adversarial runs
+	add(func() ngapType.NGAPPDU {
+		l := &ngapType.UEAssociatedLogicalNGConnectionList{}
+		for i := 0; i < 40; i++ {
+			l.List = append(l.List, ngapType.UEAssociatedLogicalNGConnectionItem{AMFUENGAPID: &ngapType.AMFUENGAPID{Value: int64(1000 + i)}, RANUENGAPID: &ngapType.RANUENGAPID{Value: int64(i)}})
+		}
+		return ngapTestpacket.BuildNGReset(l)
+	})
+	add(func() ngapType.NGAPPDU {
+		l := &ngapType.UEAssociatedLogicalNGConnectionList{}
+		l.List = append(l.List, ngapType.UEAssociatedLogicalNGConnectionItem{AMFUENGAPID: &ngapType.AMFUENGAPID{Value: 7}})
+		return ngapTestpacket.BuildNGReset(l)
+	})
 	add(ngapTestpacket.BuildNGResetAcknowledge)
 	add(func() ngapType.NGAPPDU { return ngapTestpacket.BuildInitialUEMessage(1, []byte{0x7e, 0, 0x41}, "") })
 	add(ngapTestpacket.BuildErrorIndication)
